@@ -569,6 +569,7 @@ def where(tb):
 
 
 def run(ctx):
+    C.source_tie(ctx, 'C16', [('taurex/util/util.py', 'wnwidth_to_wlwidth', 'gen_wnwidth_to_wlwidth')])
     tmp = os.path.join(C.CACHE, 'c16_%d' % os.getpid())
     os.makedirs(tmp, exist_ok=True)
     try:
